@@ -22,6 +22,9 @@ def main():
             rc = mod.run(a.tier, seed)
     except Broken as e:
         log('BROKEN: %s' % e); rc = 2
+    except Exception as e:                      # a machinery fault is never reported as a violation
+        import traceback; traceback.print_exc()
+        log('BROKEN: unexpected %r' % e); rc = 2
     sys.exit(rc)
 
 if __name__ == '__main__':
